@@ -224,18 +224,19 @@ func checkCLI(dir string, c cliCase) (o pbt.Outcome, err error) {
 			m.Cols = maskColumns(&o, rows, c.Ali.Alphabet, ref, cols, c.Replace, c.NoGap, c.NoRef)
 		}
 		if !m.Err && c.UseRef && !c.NoRef && len(c.Pos) > 1 {
-			// signature of the pending finding: an earlier position turns the reference residue into a gap and
-			// a later position is not smaller
+			// an earlier position turns the reference residue into a gap and a later position is not smaller:
+			// every position must still be read on the reference as given (defect repaired by 4edb852)
+			shifted := false
 			for i, q := range c.Pos {
 				if !strings.Contains(m.Cols[p[q]].Reps, "-") {
 					continue
 				}
 				for _, q2 := range c.Pos[i+1:] {
-					if q <= q2 && steerAround(keyPosRefGap) {
-						o.Exclude(keyPosRefGap)
-						return o, nil
-					}
+					shifted = shifted || q <= q2
 				}
+			}
+			if shifted {
+				o.Class("cli pos:reference-residue-gapped-before-a-later-position")
 			}
 		}
 		if len(c.Pos) > 1 {
@@ -316,14 +317,5 @@ func TestCLI(t *testing.T) {
 		t.Skip("no goalign binary")
 	}
 	dir := cli.TempDir("c15cli")
-	if steerAround(keyPosRefGap) {
-		// the pending / known finding: does its reproduction still fail?
-		in := cli.TempFile(dir, ".fa", ">s0\nAC-GT\n>s1\nTTTTT\n")
-		r := cli.Run("", "mask", "-i", in, "--ref-seq", "s0", "--pos", "0,1", "--replace", "GAP")
-		got, _ := cli.ParseFasta(r.Stdout)
-		if pbt.Known(keyPosRefGap) && (r.Exit != 0 || len(got) != 2 || got[0].Seq != "---GT") {
-			pbt.KnownFinding(t, keyPosRefGap, "goalign mask --ref-seq s0 --pos 0,1 --replace GAP masks reference positions 0 and 2")
-		}
-	}
 	pbt.Run(t, genCLI, func(c cliCase) (pbt.Outcome, error) { return checkCLI(dir, c) })
 }
